@@ -8,9 +8,9 @@ LB = "internal/loadbalancer"
 RL = "internal/ratelimiter"
 
 ENGINES = [
-    dict(name="S", path="engine/shim/vrt", serves_properties=["C02", "C04", "C05", "C06", "C07", "C08", "C09", "C11", "C13", "C19"],
+    dict(name="S", path="engine/shim/vrt", serves_properties=["C02", "C04", "C05", "C06", "C07", "C08", "C09", "C11", "C12", "C13", "C19"],
          kind_free_text="controlled cooperative scheduler + stateless replay DFS with preemption bounding over the real Helios code (sync/atomic/time/go/select rewritten onto shims by vgen)"),
-    dict(name="H", path="engine/shim/vh/hrun.go", serves_properties=["C02", "C04", "C05", "C06", "C07", "C08", "C09", "C11", "C13", "C19"],
+    dict(name="H", path="engine/shim/vh/hrun.go", serves_properties=["C02", "C04", "C05", "C06", "C07", "C08", "C09", "C11", "C12", "C13", "C19"],
          kind_free_text="explicit-state breadth-first search over event histories of the real objects under a virtual clock, reflective state fingerprint for deduplication, reference-model / monitor oracle on every transition"),
 ]
 
@@ -134,6 +134,18 @@ CHECKS = {
         note="A probe counts as sent when the scripted transport is entered with a live context (it re-checks the context after its in-flight scheduling point); the process-level clauses (signals, shutdown timeout) belong to the engine-P part.",
         jobs=[
             dict(name="c19s", part="S", pkg=LB, run="TestVerifC19", mode="instr", shards=dict(quick=16, thorough=16), timeout=dict(quick=900, thorough=3400)),
+        ],
+        assumptions=[],
+    ),
+    "C12": dict(
+        level="model_checking",
+        engine="S",
+        technique="exhaustive preemption-bounded schedule exploration of all actor pairs (and triples) over every subsystem, each explored schedule judged by Go's happens-before race detector (scheduler hand-offs hidden from it) plus deadlock/panic verdicts",
+        text="A menu of 14 actors (ok / ejecting / aborting request, ejection, request expiring a stale window, probe tick through the real health-check loop, admin add / remove / strategy switch / list, metrics + health handlers, Stop, limiter arrival + cleanup, WebSocket-pool operations) is instantiated on a balancer with breaker, limiter, passive and active checks and the pool all enabled; all unordered pairs incl. self-pairs (thorough: all five strategies at 2 preemptions plus triples containing a request) are explored under every interleaving up to the preemption bound twice: in a normal build for deadlock / panic / unfinished-actor verdicts and in a -race build where Go's happens-before detector judges each explored schedule (the scheduler's hand-offs are hidden from it with runtime.RaceDisable, every shim primitive operates its real counterpart so Helios' own synchronisation is what orders accesses).",
+        note="The quantifier's 8-64 goroutines are replaced by 2-3 threads with exhaustive interleavings; race reports are attributed to the innermost non-library frame and dropped when that frame is harness or shim code; reports raised during teardown of an execution are discarded; the two-tick self pair is left to C19.",
+        jobs=[
+            dict(name="c12s", part="S", pkg=LB, run="TestVerifC12", mode="instr", shards=dict(quick=16, thorough=16), timeout=dict(quick=900, thorough=3400)),
+            dict(name="c12race", part="Race", pkg=LB, run="TestVerifC12", mode="instr", race=True, shards=dict(quick=16, thorough=16), timeout=dict(quick=900, thorough=3400)),
         ],
         assumptions=[],
     ),
